@@ -373,3 +373,6 @@ func MakeCRL(issuer *Cert, key *Key, cs CRLSpec) []byte {
 	}
 	return der
 }
+
+// PKISeedRoot returns the root certificate of the i-th standard PKI.
+func PKISeedRoot(i int) *Cert { return NewPKI(PKISpec{Seed: PKISeeds[i%len(PKISeeds)]}).Root }
